@@ -342,6 +342,12 @@ impl Strong {
                     (How::AskJoin, Ty::Job) => erased_ask_join(&*b.ask_j, msg, id).await,
                     (How::AskJoin, Ty::A) => rep(b.ask_a.ask(MsgA(msg)).await, id),
                     (How::AskJoin, Ty::B) => rep(b.ask_b.ask(MsgB(msg)).await, id),
+                    (How::TellL { yields, drop }, Ty::A) => lazy_call!(b.tell_a.tell(MsgA(msg)), yields, drop, |x| unit(x, id)),
+                    (How::TellL { yields, drop }, Ty::B) => lazy_call!(b.tell_b.tell(MsgB(msg)), yields, drop, |x| unit(x, id)),
+                    (How::TellL { yields, drop }, Ty::Job) => lazy_call!(b.tell_j.tell(JobMsg(msg)), yields, drop, |x| unit(x, id)),
+                    (How::AskL { yields, drop }, Ty::A) => lazy_call!(b.ask_a.ask(MsgA(msg)), yields, drop, |x| rep(x, id)),
+                    (How::AskL { yields, drop }, Ty::B) => lazy_call!(b.ask_b.ask(MsgB(msg)), yields, drop, |x| rep(x, id)),
+                    (How::AskL { yields, drop }, Ty::Job) => lazy_call!(b.ask_j.ask(JobMsg(msg)), yields, drop, |x| jh(x, id)),
                     (How::AskTL(t, late), ty) => {
                         let mut fut: std::pin::Pin<Box<dyn std::future::Future<Output = Res> + Send + '_>> = match ty {
                             Ty::A => Box::pin(async move { rep(b.ask_a.ask_with_timeout(MsgA(msg), world.dur(t)).await, id) }),
